@@ -163,11 +163,15 @@ func (s *Linear) Nice(o TickOptions) {
 	}
 
 	firstN, lastN, spacing := s.spacingAtLevel(level, true)
-	if math.IsInf(spacing, 0) {
-		// No level really satisfies o (the tick count only
-		// dropped because the spacing overflowed).
+	min, max := firstN*spacing, lastN*spacing
+	slack := (s.Max - s.Min) * 1e-10
+	if !(min <= s.Min+slack && s.Max-slack <= max) {
+		// No level really satisfies o: the tick count only
+		// dropped because the spacing overflowed (min or max is
+		// NaN) or Min/spacing underflowed to zero. Never shrink
+		// the domain.
 		return
 	}
-	s.Min = firstN * spacing
-	s.Max = lastN * spacing
+	s.Min = min
+	s.Max = max
 }
